@@ -19,6 +19,11 @@ CLAIMS = {
    design_ref="DESIGN.md section 5 C05, section 8",
    note=COMMON_NOTE + "Equality of sblast with the independent reference decoder rfc_decode on every stream is checked by the oracle on the implementation's outputs (differential), not yet proved as a theorem; the surrounding session (451 reply, nothing queued) belongs to C07/C08.",
    technique="Coq proof (decoder-state framing invariant by induction over the stream) + extracted-model differential tie to the real blast()"),
+ "C15": dict(category="proof",
+   text="Theorems (no bound on values or lengths): squareroot() is the exact integer square root for every 0 <= x < 2^32 (loop invariant); nextretry = birth + (floor(sqrt(age)) + 10|20)^2 and lies strictly in the future; flagdying iff age > lifetime; for every sequence of prioq insertions and deletions the array is a heap, its head a minimum, contents = inserted minus deleted (Permutation); what pqfinish writes into the mtimes is what pqstart reads back. Models are tied on every run to the real squareroot/nextretry/prioq_*/pqfinish+pqstart (function harness including qmail-send.c; thorough: every x < 2^32), direct oracles on the real answers, and a regenerated constants tie (chanskip, flagdying expression, due test).",
+   design_ref="DESIGN.md section 5 C15, section 8",
+   note=COMMON_NOTE + "Daemon-level timing (a pass starts only when due, ALRM makes everything due, Z handled as D when dying) is tied textually (Tie_C15.v) and by the daemon histories of C03/C04 where registered; the virtual-clock histories are not part of this check.",
+   technique="Coq proof (loop invariant for squareroot, hole invariants for the heap sift loops, induction over operation sequences) + extracted-model differential tie + constants translator"),
 }
 
 REASON_PENDING = "not yet claimed: model/correspondence for this property is still being built (DESIGN.md section 7); no check is registered for it"
